@@ -18,6 +18,8 @@ PROP = [  # (keyword in commit subject, property, signature of the finding it re
  ("empty group inside a group", "C17", "group-stale-after-add-group-shape"), ("freeform added to a group", "C17", "group-stale-after-freeform"),
  ("datetime category labels", "C08", "datetime-time-of-day; datetime-1900-01-01"), ("categories reference used chr", "C08", "category-depth-over-26"),
  ("missing numeric category label", "C08", "numeric-category-none"), ("str.isdigit", "C06", "shape-id-isdigit-not-int"),
+ ("slide-image placeholder", "C13", "add_slide-raises-Key:sldImg"), ("header or slide-image placeholder", "C13", "geometry-raises-Key:hdr"),
+ ("empty category label read back", "C07", "empty-category-label-reads-None"),
  ("EMF images", "C15", "emf-stored-as-wmf"), ("TIFF without resolution", "C15", "tiff-without-resolution-sized-at-1dpi"),
 ]
 k = json.load(open(os.path.join(V, "known_findings.json")))
